@@ -69,6 +69,8 @@ def scrape_envs(root, fs, emitted):
         for op, m, c in scrape.rust_skel(scrape.rd(scrape.rust_file_for(rs, i))):
             if c is not None:
                 skel.append(("rust-skel", i, m, c))
+            else:
+                skel.append(("rust-skel", i, m, None))
     return envs, skel
 
 
@@ -128,9 +130,18 @@ def run(ctx):
         for lab, i, m, c, _ in envs:
             stub_counts.setdefault((i, m), set()).add(c)
         sk_bad = []
+        present = {}
         for lab, i, m, c in skel:
-            if (i, m) in stub_counts and stub_counts[(i, m)] != {c}:
+            present.setdefault(lab, set()).add((i, m))
+            if c is not None and (i, m) in stub_counts and stub_counts[(i, m)] != {c}:
                 sk_bad.append((lab, i, m, c, sorted(stub_counts[(i, m)])))
+        # every method a stub can invoke on an interface (own or inherited, any depth) has an arm in the
+        # skeleton of that interface in every backend
+        if skel:
+            for lab in ("c-skel", "cpp-skel", "rust-skel"):
+                for key in sorted(stub_counts):
+                    if key not in present.get(lab, set()):
+                        sk_bad.append((lab, key[0], key[1], "no arm for this method in the skeleton", sorted(stub_counts[key])))
         for key, cs in stub_counts.items():
             if len(cs) > 1:
                 sk_bad.append(("stubs-disagree", key[0], key[1], sorted(cs), None))
